@@ -25,6 +25,8 @@ T = {
          "All nine schemes are evaluated by the real code on seeded rectangular (non-square included) and Delaunay meshes with log-uniform coefficients and adapt images of dynamic range up to 1e4; symmetry (1e-10), PSD for all, PD + successful Cholesky for the schemes the statement names, the closed quadratic forms of the constant and adaptive-brightness schemes on random and adversarial vectors against an independently computed adjacency, and the block-diagonal layout (zero block for unregularised objects, order under permutations, reduced matrix) are decided per case. Exploration.", "DESIGN.md 3/C07"),
  "C08": ("runtime monitoring: definitional NumPy oracle on unmasked pixels next to the real FitImaging, metamorphic garbage-invariance in masked pixels, evidence terms recomputed by slogdet on the regularised index set; icontract contracts on fit_util",
          "Seeded fits (signed data of large dynamic range, background sky, slim and garbage-carrying masked-native mode, with and without inversions whose objects are fully / partially / not regularised) are evaluated by the real code; every scalar statistic, derived map, evidence term, the evidence composition and the figure-of-merit selection are compared with their definitions on values[~mask], and two native datasets differing only in masked pixels must give bit-identical statistics. Exploration.", "DESIGN.md 3/C08"),
+ "C12": ("runtime monitoring: metamorphic comparison of two whole executions (origin o vs o+d) over every listed entry point, classified per entry point",
+         "The same world (mask bits, scales, values, identical random draws relative to the origin) is built at o and at o+d with tiny, order-of-scale, large (100 pixel scales), integer- and half-integer-pixel translations; ~45 public results per pair (grids, derived masks, zoom, padding, over-sampling, border relocation, overlay and Hilbert meshes, masked / noise-scaled / over-sampled / trimmed / simulated datasets, S/N-limited noise maps, pixel indexes of translated points, mapper tables and matrices) must translate by exactly d or stay unchanged; floating-point ties (overlay points on pixel boundaries, degenerate triangulations) are detected independently and counted as don't-care. Exploration.", "DESIGN.md 3/C12"),
  "C13": ("runtime monitoring: the real TransformerDFT / transformer_util / InversionInterferometerMapping executed next to a dense reference operator exp(-2 pi i (x u + y v)); adjoint inner-product identity",
          "Seeded masks, anisotropic scales, origins and baseline sets (zero and duplicate baselines, up to 1e6 wavelengths) are transformed by the real code with and without preloaded tables, for slim- and native-stored signed images and four kinds of mapping matrix (tiny, signed, sparse); visibilities, transformed matrices, the adjoint image (also via <AI,V>=<I,A^H V>) and the interferometer data vector / curvature matrix / mapped data are compared with the dense operator built from the C02 pixel-centre formula. pylops is replaced by the minimal base-class stand-in the property allows. Exploration.", "DESIGN.md 3/C13"),
 }
